@@ -25,7 +25,7 @@ from dask.callbacks import Callback
 import facegrid as fg
 from common import Layout, build_grid, dyadic_array, exc_kind, pos_len
 
-RULE = ("simple grids (1-2 axes, random positions, n in 2..6, 0-2 extra dims) and a 3-face connected grid; "
+RULE = ("simple grids (1-2 axes, random positions, n in 2..6, 0-2 extra dims; scalar and vector spelling) and a 3-face connected grid; "
         "random chunk compositions of every dimension (size-1, uneven); ops diff/interp/min/max/cumsum/derivative/"
         "integrate/average/cumint/ufunc(+map_overlap); scalar and vector; synchronous and threaded schedulers; "
         "non-trivial = the operated dimension itself is chunked or the grid is face-connected; distinct by case")
@@ -68,8 +68,20 @@ def gen_case(rng, tier, i):
         else:
             chunks[d] = composition(rng, s)
     op = rng.choice(["diff", "interp", "min", "max", "cumsum", "derivative", "integrate", "average", "cumint",
-                     "ufunc", "ufunc_overlap"])
-    return {"kind": "simple", "layout": {"axes": layout.axes, "extra": layout.extra}, "axis": ax["name"],
+                     "ufunc", "ufunc_overlap"] + (["ufunc2", "ufunc2_overlap"] * 2 if len(layout.axes) == 2 else []))
+    pos_all = {ax["name"]: frm}
+    for a in layout.axes:
+        if a is not ax:
+            pos_all[a["name"]] = next(p for p, d in a["coords"].items() if d in [x for x, _ in dims])
+    names2 = [a["name"] for a in layout.axes]
+    rng.shuffle(names2)
+    bw2 = {n: [rng.randint(0, 2), rng.randint(0, 2)] for n in names2 if rng.random() < 0.85}
+    sig_order = [a["name"] for a in layout.axes]
+    rng.shuffle(sig_order)
+    vector = op in ("diff", "interp", "min", "max") and rng.random() < 0.35
+    if op.startswith("ufunc2"):
+        vector = False
+    return {"kind": "simple", "pos_all": pos_all, "bw2": bw2, "sig_order": sig_order, "vector": vector, "layout": {"axes": layout.axes, "extra": layout.extra}, "axis": ax["name"],
             "from": frm, "to": rng.choice(tos), "dims": [d for d, _ in dims], "chunks": {k: list(v) for k, v in chunks.items()},
             "op": op, "boundary": rng.choice(["fill", "extend", "periodic"]), "seed": rng.randrange(1 << 30)}
 
@@ -129,10 +141,36 @@ def run_case(case, lazy):
     if lazy:
         da = da.chunk({k: tuple(v) for k, v in case["chunks"].items()})
     op, ax, to = case["op"], case["axis"], case["to"]
+    if case.get("vector"):
+        # vector spelling on a grid without face connections: same numbers as the scalar spelling
+        other = next((a for a in layout.axes if a["name"] != ax), None)
+        kw = {}
+        if other is not None:
+            od = [d for d in dims if d not in other["coords"].values()]
+            oth = xr.DataArray(dyadic_array(rr, [ds.sizes[d] for d in od]), dims=od, name="psi") if od else None
+            if oth is not None:
+                kw["other_component"] = {other["name"]: oth.chunk({k: tuple(v) for k, v in case["chunks"].items() if k in od})
+                                         if lazy else oth}
+        return getattr(grid, op)({ax: da}, ax, to=to, **kw)
     if op in ("diff", "interp", "min", "max", "cumsum", "derivative", "cumint"):
         return getattr(grid, op)(da, ax, to=to)
     if op in ("integrate", "average"):
         return getattr(grid, op)(da, ax)
+    if op.startswith("ufunc2"):
+        # two core axes, widths given in any key order (or for one axis only); the function uses every halo cell
+        order = case["sig_order"]
+        dummies = {order[0]: "a", order[1]: "b"}
+        inner = ",".join(f"{dummies[n]}:{case['pos_all'][n]}" for n in order)
+        sig = f"({inner})->({inner})"
+        bw = {dummies[n]: tuple(w) for n, w in case["bw2"].items()}
+        (la, ra), (lb, rb) = (tuple(case["bw2"].get(order[0], (0, 0))), tuple(case["bw2"].get(order[1], (0, 0))))
+
+        def f2(x):
+            na, nb = x.shape[-2] - la - ra, x.shape[-1] - lb - rb
+            return x[..., 0:na, 0:nb] + 2.0 * x[..., la + ra:la + ra + na, lb + rb:lb + rb + nb]
+        return grid.apply_as_grid_ufunc(f2, da, axis=[list(order)], signature=sig, boundary_width=bw or None,
+                                        dask="allowed" if lazy else "forbidden",
+                                        map_overlap=(op == "ufunc2_overlap") and lazy)
     a = layout.axis(ax)
     sig = f"(Q:{case['from']})->(Q:{case['from']})"
     return grid.apply_as_grid_ufunc(lambda x: x * 2.0 + 1.0, da, axis=[[ax]], signature=sig,
@@ -169,7 +207,9 @@ def eval_case(case, drv):
     uses_dispatch = case["kind"] == "simple" and case["op"] in ("diff", "interp", "min", "max", "derivative")
     must_refuse = False
     corr_ok = True
-    if uses_dispatch or (case["kind"] == "simple" and case["op"] == "ufunc_overlap"):
+    if case["kind"] == "simple" and case["op"] == "ufunc2_overlap":
+        positions = [case["pos_all"][n] for n in case["sig_order"]]
+    if uses_dispatch or (case["kind"] == "simple" and case["op"] in ("ufunc_overlap", "ufunc2_overlap")):
         cc = core_chunked if uses_dispatch else True
         ans = drv.ask(f"c06mode T {'T' if cc else 'F'} {fname if uses_dispatch else 'ufunc'} {len(positions)} {' '.join(positions)}").split(" ")
         must_refuse = ans[3] == "F"
@@ -220,7 +260,31 @@ def eval_case(case, drv):
             corr_ok = False
             detail["merge"] = {"impl": list(pat), "model": ans}
     return {"corr_ok": corr_ok, "prop_ok": prop_ok,
-            "branch": case["kind"] + ":" + case["op"] + (":corechunked" if core_chunked else ""), "detail": detail or None}
+            "branch": case["kind"] + ":" + case["op"] + (":vector" if case.get("vector") else "")
+            + (":corechunked" if core_chunked else ""), "detail": detail or None}
+
+
+def known(case, verdict):
+    """C06-overlap-depth-exceeds-chunk: apply_as_grid_ufunc(map_overlap=True) where, after xgcm has merged the
+    padding into the first/last chunk, a chunk of a core dimension is smaller than the overlap depth on that axis:
+    dask.array.map_overlap then merges chunks on its own and refuses the chunk sizes xgcm announces (ValueError
+    '... adjust_chunks specified with ...').  Only this refusal, only through an explicit map_overlap=True with a
+    boundary width > 1 (the predefined operations have widths <= 1 and cannot reach it)."""
+    d = (verdict.get("detail") or {}).get("refused")
+    if case.get("kind") != "simple" or case.get("op") != "ufunc2_overlap" or not d:
+        return None
+    lazy = d["lazy"]
+    if lazy[1] != "ValueError" or "adjust_chunks specified with" not in lazy[2]:
+        return None
+    layout = Layout(case["layout"]["axes"], [tuple(e) for e in case["layout"]["extra"]])
+    for n, (lo, hi) in case["bw2"].items():
+        dim = layout.axis(n)["coords"][case["pos_all"][n]]
+        m = list(case["chunks"][dim])
+        m[0] += lo
+        m[-1] += hi
+        if max(lo, hi) > 1 and min(m) < max(lo, hi):
+            return "C06-overlap-depth-exceeds-chunk"
+    return None
 
 
 def nontrivial(case, verdict):
